@@ -173,7 +173,7 @@ def run(ctx: common.Ctx) -> None:
                     continue
                 prog = by_name[name]
                 ref = results.get((name, "interp"))
-                if ref is None or not ref["done"] or ref["crashes"]:
+                if ref is None or not ref["done"] or any(not c.get("timeout") for c in ref["crashes"]):
                     ctx.inconc("reference-run-incomplete")
                     ctx.extra.setdefault("reference_problems", []).append({"program": name, "stderr": (ref or {}).get("stderr"),
                                                                             "crashes": (ref or {}).get("crashes")})
